@@ -183,6 +183,15 @@ let dispatch (fn : string) (args : sx list) : sx =
   | "valid_group", [self; group; deps] ->
       L [of_bool (valid_group (get_list get_member group) (get_list (get_pair get_nat get_nat) deps));
          of_bool (self_fresh (get_nat self) (get_list get_member group))]
+  | "partitions_divisions", [divs; sel] -> of_opt (of_list of_z) (partitions_divisions (get_list get_z divs) (get_list get_nat sel))
+  | "fusion_buckets", [sel; step] -> of_list (of_list of_nat) (fusion_buckets (get_list get_nat sel) (get_nat step))
+  | "fused_divisions", [divs; buckets] -> of_list of_z (fused_divisions (get_list get_z divs) (get_list (get_list get_nat) buckets))
+  | "fewer_divisions", [divs; bs] -> of_list of_z (fewer_divisions (get_list get_z divs) (get_list get_nat bs))
+  | "head_divisions", [divs; k] -> of_list of_z (head_divisions (get_list get_z divs) (get_nat k))
+  | "bhead_divisions", [divs; k] -> of_list of_z (bhead_divisions (get_list get_z divs) (get_nat k))
+  | "tail_divisions", [divs] -> of_list of_z (tail_divisions (get_list get_z divs))
+  | "concat_divisions", [ds] -> of_opt (of_list of_z) (concat_divisions (get_list (get_list get_z) ds))
+  | "truthfulb", [divs; parts] -> of_bool (truthfulb (get_list get_z divs) (get_list (get_list get_z) parts))
   | "dnf_extract", [t] -> of_opt (of_list (of_list of_atom)) (extract (get_ptree t))
   | _ -> failwith ("unknown request " ^ fn)
 (*DISPATCH-END*)
